@@ -13,6 +13,7 @@ import scipy.optimize
 from skgstat import Variogram, models
 
 from .common import quiet, frs, fr, parse_nums, close, all_close, gen_coords, gen_values, floatbits, parse_floatbits
+from .common import guarded
 
 INFO = dict(
     rule='seeded data sets (incl. two far clusters producing empty lag classes) x models x use_nugget x fit_sigma '
@@ -48,7 +49,7 @@ def gen(ctx):
     values = gen_values(rng, coords, 'field')
     model = str(rng.choice(SINGLE)) if rng.random() < 0.85 else \
         '+'.join(str(x) for x in rng.choice(['spherical', 'exponential', 'gaussian'], size=2))
-    method = 'trf' if rng.random() < 0.8 else 'lm'
+    method = 'trf' if rng.random() < 0.7 else 'lm'
     nl = int(rng.integers(6, 14))
     sig = rng.choice(['none', 'none', 'linear', 'exp', 'sqrt', 'sq', 'array'])
     sigma = None if sig == 'none' else (rng.uniform(0.5, 2.0, size=nl).tolist() if sig == 'array' else str(sig))
@@ -69,6 +70,7 @@ def objective(f, x, y, sigma, p):
     return float(np.sum(((m - y) / s) ** 2))
 
 
+@guarded
 def check_case(ctx, case):
     rec = Recorder()
     VM.curve_fit = rec
@@ -190,29 +192,49 @@ def check_case(ctx, case):
     if obj > obj0 * (1 + 1e-6) + 1e-12:
         ctx.violation('worse-than-start', 'objective at the result %r > at the initial guess %r' % (obj, obj0), case)
         return
-    if case['method'] == 'trf':
+    if case['method'] == 'lm' and (cof[0] <= 0 or cof[1] < 0):
+        ctx.reject('lm-nonphysical-parameters')      # "lm where it converges" (as in C04)
+        return
+    if case['method'] in ('trf', 'lm'):
         best = obj
         starts = [np.array(cof)]
-        lo, hi = call['bounds']
-        hi = np.atleast_1d(np.array(hi, float))
+        if case['method'] == 'trf':
+            lo, hi = call['bounds']
+            hi = np.atleast_1d(np.array(hi, float))
+        else:
+            # the reported coefficients of an lm fit: with the nugget disabled the wrapped model has one
+            # parameter less than the reported vector only if a literal 0 was appended - use what curve_fit saw
+            lo, hi = -np.inf, np.full(len(cof), np.inf)
+            if call['p0'] is not None and len(call['p0']) != len(cof):
+                starts = []
         for k in range(8 if ctx.tier == 'thorough' else 3):
-            starts.append(np.clip(np.array(cof) * ctx.rng.uniform(0.999, 1.001, size=len(cof)), 1e-9, hi * (1 - 1e-9)))
+            if not starts:
+                break
+            pert = np.array(cof) * ctx.rng.uniform(0.999, 1.001, size=len(cof))
+            starts.append(np.clip(pert, 1e-9, hi * (1 - 1e-9)) if case['method'] == 'trf' else pert)
         for st in starts:
             try:
                 with quiet():
-                    p, _ = rec.real(f, x, y, sigma=sg, p0=st, bounds=(lo, hi), method='trf')
-                best = min(best, objective(f, x, y, sg, p))
+                    if case['method'] == 'trf':
+                        p, _ = rec.real(f, x, y, sigma=sg, p0=st, bounds=(lo, hi), method='trf')
+                    else:
+                        p, _ = rec.real(f, x, y, sigma=sg, p0=st, method='lm')
+                o = objective(f, x, y, sg, p)
+                if math.isfinite(o):
+                    best = min(best, o)
             except Exception:
                 continue
         ctx.count('restarts', len(starts))
         # "noticeably": relative to the result and to the weighted total sum of squares (the scale
         # of the objective; with fit_sigma='exp' the weights span many orders of magnitude)
         tss = float(np.sum((y / (1.0 if sg is None else sg)) ** 2))
-        if obj - best > 1e-4 * obj and obj - best > 1e-6 * tss:
+        # lm (unbounded, default tolerances) creeps along flat valleys: only a clear drop counts there
+        rel = 1e-4 if case['method'] == 'trf' else 5e-2
+        if obj - best > rel * obj and obj - best > 1e-6 * tss:
             at_lower = bool(any(abs(c) <= 1e-9 * max(1.0, float(h_)) for c, h_ in zip(cof, hi)))
             ctx.violation('not-locally-optimal', 're-optimising near the reported parameters %r lowers the objective '
                           'from %r to %r' % (cof, obj, best), case,
-                          signature=dict(kind='not-locally-optimal', sum_model='+' in case['model'],
+                          signature=dict(kind='not-locally-optimal', sum_model='+' in case['model'], method=case['method'],
                                          parameter_at_lower_bound=at_lower,
                                          fit_sigma='array' if isinstance(case['fit_sigma'], list) else str(case['fit_sigma'])))
 
